@@ -16,6 +16,7 @@ def World.NoGhost (w : World) : Prop := ∀ a, (w.acct a).live = false → (w.ac
 theorem set_acct_other (w : World) {a x : Addr} (v : Acct) (h : x ≠ a) : (w.set a v).acct x = w.acct x := by
   simp [World.set, h]
 @[simp] theorem set_logs (w : World) (a : Addr) (v : Acct) : (w.set a v).logs = w.logs := rfl
+@[simp] theorem set_logSize (w : World) (a : Addr) (v : Acct) : (w.set a v).logSize = w.logSize := rfl
 @[simp] theorem set_refund (w : World) (a : Addr) (v : Acct) : (w.set a v).refund = w.refund := rfl
 @[simp] theorem set_burnt (w : World) (a : Addr) (v : Acct) : (w.set a v).burnt = w.burnt := rfl
 
